@@ -226,4 +226,5 @@ def run(ctx, shard):
 
 def replay(ctx, case):
     ctx.distinct(2)
-    run(ctx, {"cal": case.get("cal", "ISO"), "n": 30, "name": f"cal:{case.get('cal', 'ISO')}"})
+    # the runner restores the original shard (name, n), so the same seeded cases are regenerated
+    run(ctx, ctx.shard if "cal" in ctx.shard else {"cal": case.get("cal", "ISO"), "n": 30})
